@@ -69,6 +69,43 @@ impl Prop for C12 {
                 },
             ));
         }
+        {
+            // in-line chains 'x A to B to C [to D]': every same-kind triple (quick: weight and memory;
+            // thorough: all kinds, plus all quadruples of memory)
+            let mut triples: Vec<Vec<usize>> = Vec::new();
+            for (i, a) in UNITS.iter().enumerate() {
+                for (j, b) in UNITS.iter().enumerate() {
+                    for (k, c) in UNITS.iter().enumerate() {
+                        if a.kind == b.kind && b.kind == c.kind && (tier == Tier::Thorough || a.kind != units::Kind::Length) {
+                            triples.push(vec![i, j, k]);
+                            if tier == Tier::Thorough && a.kind == units::Kind::Memory {
+                                for (l, d) in UNITS.iter().enumerate() {
+                                    if d.kind == a.kind {
+                                        triples.push(vec![i, j, k, l]);
+                                    }
+                                }
+                            }
+                        }
+                    }
+                }
+            }
+            let nt = triples.len();
+            f.push(Family::new(
+                "inline-chains",
+                Mode::Full,
+                &format!("'2,5 A to B to C' (and 'to D') written on one line for {} same-kind unit sequences: equals the direct conversion A to the last unit (transitivity without a variable)", nt),
+                move |ch| {
+                    let t = ch.pick(&triples).clone();
+                    let mut text = format!("2,5 {}", UNITS[t[0]].short);
+                    for u in &t[1..] {
+                        text.push_str(&format!(" to {}", UNITS[*u].short));
+                    }
+                    let last = &UNITS[*t.last().unwrap()];
+                    let want = 2.5 * UNITS[t[0]].factor / last.factor;
+                    Some(Case::Line(LineCase::new(text, Expect::Value(unit_val(want, last), 1e-9), "inline-chain")))
+                },
+            ));
+        }
         if tier == Tier::Thorough {
             let pairs = pairs.clone();
             f.push(Family::new(
